@@ -84,6 +84,7 @@ class Cfg:
         self.min_types = 0
         self.redactors = True
         self.union_struct_bias = False
+        self.route_container_bias = False  # C20: route results / errors that are containers of user types
         self.avoid_word_namespace = False   # keep the word `namespace` out of identifiers and docs
         self.annot_bias = False       # C13: annotations in every namespace and on most members
         self.risky_literals = 0       # how many near-miss literals (C10) a spec may contain
@@ -885,7 +886,13 @@ class Builder:
                            if self.idx.base(d['type'])[0] == 'ref'
                            and not self.idx.is_nullable(('alias', nn, d['name']))]
                 r = g.int(0, 99)
-                if r < 25 or not users:
+                if cfg.route_container_bias and pos > 0 and users and g.p(30):
+                    nn, d = g.choice(users)
+                    u_ = ('ref', nn, d['name'])
+                    t = g.choice([('list', u_, None, None), ('map', prim('String'), u_),
+                                  ('nullable', ('list', ('map', prim('String'), u_), None, None)),
+                                  ('map', prim('String'), ('list', u_, None, None))])
+                elif r < 25 or not users:
                     t = M.VOID
                 elif r < 85:
                     nn, d = g.choice(users)
